@@ -10,6 +10,8 @@ import (
 
 	"github.com/sourcenetwork/defradb/client"
 	"github.com/sourcenetwork/defradb/internal/datastore"
+	"github.com/sourcenetwork/defradb/internal/db/description"
+	"github.com/sourcenetwork/defradb/internal/db/id"
 )
 
 type tDB struct {
@@ -70,4 +72,45 @@ func VerifH_C05_EnsureTxn() {
 	vAssert(basic.Commit(ctx) == nil, "caller-commit")
 	vAssert(root.commits == 1 && hits == 1, "callback-runs-when-the-caller-commits")
 	vAssert(txn.ID() == 5, "same-underlying-transaction")
+}
+
+// VerifH_C05_SaveCollectionFaults — a collection description is saved again (what CreateIndex, DropIndex, PatchCollection,
+// SetActiveSchemaVersion do for an existing collection) by a later request (fresh short-id caches) with at most one failing
+// system-store operation: the real description.SaveCollection with id.SetShortCollectionID / SetShortFieldIDs reports the
+// fault, and when it reports success the short ids of the collection and of its fields are what they were.
+func VerifH_C05_SaveCollectionFaults() {
+	e := vNewEnv(vFieldLWW, true)
+	def := sDefinition(false)
+	vBound(description.SaveCollection(e.ctx, def.Version) == nil, "first save")
+	colID, err := id.GetShortCollectionID(e.ctx, def.Version.CollectionID)
+	vBound(err == nil, "short collection id")
+	var before [2]uint32
+	for i, f := range sFields {
+		before[i], err = id.GetShortFieldID(e.ctx, colID, f)
+		vBound(err == nil && before[i] != 0, "short field id")
+	}
+	// a later request: the same transaction content, fresh caches
+	ctx := datastore.CtxSetTxn(context.Background(), e.txn)
+	ctx = id.InitCollectionShortIDCache(ctx)
+	ctx = id.InitFieldShortIDCache(ctx)
+	f := &vFaults{window: 40, max: 1}
+	e.txn.system.faults = f
+	desc := def.Version
+	desc.Indexes = []client.IndexDescription{{Name: "idx", ID: 1, Fields: []client.IndexedFieldDescription{{Name: sFields[0]}}}}
+	serr := description.SaveCollection(ctx, desc)
+	e.txn.system.faults = nil
+	vCover("saved-again")
+	vBound(f.count <= f.window, "window-covers-all-store-operations")
+	vAssert(vImplies(f.injected > 0, serr != nil), "fault-propagates")
+	vAssert(vImplies(f.injected == 0, serr == nil), "no-fault-no-error")
+	if serr == nil {
+		ctx2 := datastore.CtxSetTxn(context.Background(), e.txn)
+		ctx2 = id.InitCollectionShortIDCache(ctx2)
+		ctx2 = id.InitFieldShortIDCache(ctx2)
+		for i, fn := range sFields {
+			got, gerr := id.GetShortFieldID(ctx2, colID, fn)
+			vAssert(gerr == nil && got == before[i], "successful-save-keeps-the-short-ids")
+		}
+	}
+	vObserve("failed", serr != nil)
 }
